@@ -11,7 +11,7 @@ use crate::model::{self, b64d, b64e, Parts};
 use crate::pipeline::{self, Config};
 use crate::rng::Rng;
 use serde_json::{json, Value};
-use std::collections::{BTreeSet, HashSet};
+use std::collections::BTreeSet;
 
 const STREAM: u64 = 3;
 
@@ -100,20 +100,39 @@ fn one_case(ctx: &Ctx, case: u64, l: &mut Local) {
     };
 
     // expected view for an arbitrary list
+    // (per hidden claim, once: its own disclosure and those of its hidden ancestors, as indices into the list
+    // of located disclosures — a hidden array of thousands of elements is ONE very long string that must not
+    // be hashed again for each of its elements)
+    let id_of: std::collections::HashMap<&String, usize> = issued.loc.map.values().enumerate().map(|(i, d)| (d, i)).collect();
+    let chains: Vec<(&Path, usize, Option<Vec<usize>>)> = issued
+        .loc
+        .map
+        .iter()
+        .map(|(p, d)| {
+            let mut ancs: Option<Vec<usize>> = Some(vec![]);
+            for i in 1..p.len() {
+                let anc: Path = p[..i].to_vec();
+                if s.strat.sd.contains(&anc) {
+                    match (issued.loc.map.get(&anc).and_then(|ad| id_of.get(ad)), ancs.as_mut()) {
+                        (Some(ad), Some(v)) => v.push(*ad),
+                        _ => ancs = None,
+                    }
+                }
+            }
+            (p, id_of[d], ancs)
+        })
+        .collect();
     let expected_for = |list: &[String]| -> (Value, BTreeSet<Path>) {
-        let present: HashSet<&String> = list.iter().collect();
-        let dl: BTreeSet<Path> = issued
-            .loc
-            .map
+        let mut present = vec![false; id_of.len()];
+        for d in list {
+            if let Some(i) = id_of.get(d) {
+                present[*i] = true;
+            }
+        }
+        let dl: BTreeSet<Path> = chains
             .iter()
-            .filter(|(p, d)| {
-                present.contains(d)
-                    && (1..p.len()).all(|i| {
-                        let anc: Path = p[..i].to_vec();
-                        !s.strat.sd.contains(&anc) || issued.loc.map.get(&anc).map(|ad| present.contains(ad)).unwrap_or(false)
-                    })
-            })
-            .map(|(p, _)| p.clone())
+            .filter(|(_, d, ancs)| present[*d] && ancs.as_ref().map(|a| a.iter().all(|x| present[*x])).unwrap_or(false))
+            .map(|(p, _, _)| (*p).clone())
             .collect();
         (model::with_cnf(model::view_by_set(&s.u, &s.strat.sd, &dl), jwk.as_ref()), dl)
     };
@@ -224,7 +243,15 @@ fn one_case(ctx: &Ctx, case: u64, l: &mut Local) {
     }
     // single-disclosure edits on every disclosure (credentials with hundreds of disclosures: on the
     // first 24 and 8 random ones, so that one huge credential does not eat the budget)
-    let edit_targets: Vec<usize> = if genuine.len() <= 32 { (0..genuine.len()).collect() } else { (0..24).chain((0..8).map(|_| r.usize(genuine.len()))).collect() };
+    // (and of a credential with more than 500 disclosures — every run costs tens of milliseconds there — the
+    // first 4 and 4 random ones)
+    let edit_targets: Vec<usize> = if genuine.len() <= 32 {
+        (0..genuine.len()).collect()
+    } else if genuine.len() <= 500 {
+        (0..24).chain((0..8).map(|_| r.usize(genuine.len()))).collect()
+    } else {
+        (0..4).chain((0..4).map(|_| r.usize(genuine.len()))).collect()
+    };
     for (i, d) in genuine.iter().enumerate().filter(|(i, _)| edit_targets.contains(i)) {
         let text = match b64d(d).ok().and_then(|b| String::from_utf8(b).ok()) {
             Some(t) => t,
